@@ -1161,12 +1161,15 @@ func c14GenReq(r *vu.RNG) string {
 	if r.Chance(1, 2) {
 		from = "h:" + vu.Hex(r.Bytes(32))
 	} else {
-		from = "n:" + vu.X([]uint64{0, 1, 255, 256, 1<<32 - 1, uint64(r.Intn(1 << 24)), r.U64() & (1<<32 - 1)}[r.Intn(7)])
+		// 1<<32 and beyond are outside the u32 block number domain: Encode clamps them
+		from = "n:" + vu.X([]uint64{0, 1, 255, 256, 1<<32 - 1, uint64(r.Intn(1 << 24)), r.U64() & (1<<32 - 1),
+			uint64(r.Intn(1 << 24)), r.U64() & (1<<32 - 1), 1 << 32, 1 << 40}[r.Intn(11)])
 	}
 	dir := []uint64{0, 1, 0, 1, 2, 255}[r.Intn(6)]
 	mx := "none"
 	if r.Chance(2, 3) {
-		mx = vu.X([]uint64{1, 128, 1<<32 - 1, uint64(1 + r.Intn(1000))}[r.Intn(4)])
+		// Max = 0 is outside the domain: on the wire it means "unspecified" and decodes to nil
+		mx = vu.X([]uint64{1, 128, 1<<32 - 1, uint64(1 + r.Intn(1000)), 1, 128, uint64(1 + r.Intn(1000)), 0}[r.Intn(8)])
 	}
 	return fmt.Sprintf("breq %s %s %s %s", vu.X(rd), from, vu.X(dir), mx)
 }
